@@ -821,8 +821,21 @@ pub fn generate(seed: u64, g: &GenB) -> PlanB {
         add_pipelines(&mut p, &mut r);
     }
     {
+        /* `addresses` sometimes lists the LAN twice, the narrower prefix first, both with the
+         * same network address; the default ACLs are built from this list and must still
+         * grant the whole of the wider prefix */
+        let mut k = Rng::new(seed, "plan-b-nested-addresses");
+        if k.chance(0.2) && p.acls.is_none() {
+            let net = Ipv4Addr::from(u32::from(p.lan4.0) & 0xffff_ff00);
+            let narrow = *k.pick(&[25u8, 26, 30]);
+            p.addresses.retain(|a| !a.starts_with(&format!("{}/", net)));
+            p.addresses.insert(0, format!("{}/24", net));
+            p.addresses.insert(0, format!("{}/{}", net, narrow));
+        }
+    }
+    {
         let mut k = Rng::new(seed, "plan-b-listen-style");
-        if p.listeners.len() == 1 && p.listeners[0] == "default" && k.chance(0.3) {
+        if p.listeners.len() == 1 && p.listeners[0] == "default" && k.chance(0.3) && p.addresses.len() == 2 {
             /* same destinations, reached through per-address sockets instead of the wildcard */
             p.listeners = vec!["bind-interfaces".into()];
         }
